@@ -159,6 +159,7 @@ def cases(c):
             NFFT = gen.pick(rng, [None if nf0 <= N else nf0, nf0 + int(rng.integers(0, 50))])
             cc = draw_c(rng, cplx, i)
             dcl = {'form': 'class', 'cls': cls, 'cplx': cplx, 'N': N, 'kind': gen.pick(rng, kinds_for(cls)),
+                   'reuse': ((j // 3) % 4) if j % 3 == 1 else None,
                    'p': params, 'NFFT': NFFT, 'fs': gen.pick(rng, [1.0, 2.0, 1000.0]),
                    'c': [float(np.real(cc)), float(np.imag(cc))], 'j': j}
             if cplx and j % 5 == 0:
@@ -231,9 +232,14 @@ def run_function(fn, p, x):
     raise ValueError(fn)
 
 
-def run_class(cls, p, x, NFFT, fs):
+def run_class(cls, p, x, NFFT, fs, reuse=None, obj=None):
     del _nsig_seen[:]
-    obj = E.build(cls, p, x, NFFT=NFFT, fs=fs, scale=False)
+    if obj is not None:
+        obj.data = np.array(x, copy=True)        # the very object that estimated x now gets c*x
+    elif reuse is not None:
+        obj = E.build_reused(cls, p, x, NFFT=NFFT, fs=fs, scale=False, salt=reuse)
+    else:
+        obj = E.build(cls, p, x, NFFT=NFFT, fs=fs, scale=False)
     psd = np.asarray(obj.psd)
     out = {'psd': (psd, 0 if cls == 'pmusic' else 1 if cls == 'pev' else 2)}
     powers = {'ar': 0, 'ma': 0, 'rho': 2, 'reflection': 0, 'eigenvalues': 1 if cls in ('pmusic', 'pev') else 0, 'weights': 0}
@@ -241,6 +247,7 @@ def run_class(cls, p, x, NFFT, fs):
         out[k] = (v, powers[k])
     if cls in ('pmusic', 'pev') and _nsig_seen:
         out['subspace_dimension_used'] = (np.array([_nsig_seen[-1]]), 0)
+    out['__obj__'] = (obj, None)
     return out
 
 
@@ -294,8 +301,10 @@ def run_case(c, d):
             if d['form'] == 'function':
                 out = run_function(d['fn'], d['p'], data)
             else:
-                out = run_class(d['cls'], d['p'], data, d['NFFT'], d['fs'])
-            log.append({'role': role, 'outputs': out, 'error': None})
+                same = log[0]['obj'] if (role == 'c*x' and d.get('reuse') == 0 and log and log[0].get('obj') is not None) else None
+                out = run_class(d['cls'], d['p'], data, d['NFFT'], d['fs'], reuse=d.get('reuse'), obj=same)
+            obj = out.pop('__obj__', (None, None))[0] if isinstance(out, dict) else None
+            log.append({'role': role, 'outputs': out, 'error': None, 'obj': obj})
         except Exception as exc:
             log.append({'role': role, 'outputs': None, 'error': exc})
 
